@@ -147,8 +147,10 @@ def check_program(shard, prog, base_extra, configs, choices_list, max_len=5, alp
                 except (am_mod.Undefined, am_mod.Spin):
                     return
                 shard.event("end_calls")
-                ea = [(e[0], walk.payload_of(e)) for e in ra.events if e[0] in walk.OBSERVABLE]
-                eb = [(e[0], walk.payload_of(e)) for e in rb.events if e[0] in walk.OBSERVABLE]
+                # (assigning the empty string and deleting are the same effect: -fuse-delete-for-empty-string, as in walk.absorb)
+                kind_of = lambda e: "delete" if (e[0] == "setstr" and e[2] == b"") else e[0]
+                ea = [(kind_of(e), walk.payload_of(e)) for e in ra.events if e[0] in walk.OBSERVABLE]
+                eb = [(kind_of(e), walk.payload_of(e)) for e in rb.events if e[0] in walk.OBSERVABLE]
                 # events that one side already performed eagerly with the last byte are not repeated at end(): compare the totals
                 ta = [(k_, p_) for _, k_, p_ in tls[0].events] + ea
                 tb = [(k_, p_) for _, k_, p_ in tls[1].events] + eb
